@@ -1,5 +1,6 @@
 #!/bin/bash
 # usage: tools/seedall.sh <seed-dir>...   runs tools/seedtest.sh for each, one summary line per seed
+# SEEDTEST_CHECK_ONLY=1 skips the module tests and the demonstration (already confirmed) and only runs the checks
 cd /verif
 for d in "$@"; do
   out=$(tools/seedtest.sh "$d" 2>&1)
